@@ -276,6 +276,11 @@ def _limit(gb):
     def f():
         lim = int(gb * (1 << 30))
         resource.setrlimit(resource.RLIMIT_AS, (lim, lim))
+        try:
+            # CBMC's expression walkers recurse once per element of an array copy; 8 MiB of stack ends at ~6000 bytes
+            resource.setrlimit(resource.RLIMIT_STACK, (1 << 30, resource.getrlimit(resource.RLIMIT_STACK)[1]))
+        except (ValueError, OSError):
+            pass
         os.setsid()
     return f
 
